@@ -51,7 +51,7 @@ func c07XNodes(items []int) (nodes []*Node, slots []string) {
 	return nodes, slots
 }
 
-const c07ArgVariants = 7
+const c07ArgVariants = 8
 const c07SlotVariants = 4
 
 // c07UseNode builds one component use; idx makes its argument values and slot bodies unique.
@@ -78,6 +78,8 @@ func c07UseNode(u c07Use, idx int, xSlots []string, loopVar string) *Node {
 		n.HasArgs, n.Keys, n.Vals = true, []string{"a", "o"}, []*Expr{eLit(lit), eLit(vStr(fmt.Sprintf("shadow%d", idx)))}
 	case 5: // shadows the outer o with a value of another type
 		n.HasArgs, n.Keys, n.Vals = true, []string{"a", "o"}, []*Expr{eLit(vStr(fmt.Sprintf("t%d", idx))), eLit(vFloat(float64(idx) + 0.5))}
+	case 7: // an argument value that names another argument: it is the caller's variable that counts
+		n.HasArgs, n.Keys, n.Vals = true, []string{"a", "o"}, []*Expr{eVar("v"), eVar("a")}
 	case 6: // falsy argument
 		n.HasArgs, n.Keys, n.Vals = true, []string{"a"}, []*Expr{eLit(vStr(""))}
 	}
@@ -155,6 +157,9 @@ func c07Build(cs c07Case) c07Built {
 	b.data = map[string]Val{"o": vStr("O"), "v": vStr("V")}
 	if cs.Data == 1 {
 		b.data["o"] = vInt(7)
+	}
+	if cs.Data == 2 {
+		b.data["a"] = vStr("CA") // the caller has its own a
 	}
 	b.tree.Files["x.tw"] = printFile(xf)
 	b.tree.Files["components/y.tw"] = printFile(yf)
@@ -263,8 +268,8 @@ func c07Run(c *Ctx) {
 			return false
 		}
 		for _, u := range cs.Uses {
-			if u.Place == 4 && u.Arg == 0 {
-				return true // inside another component's slot the visibility of that component's arguments is not stated: a must be passed explicitly
+			if u.Place == 4 && (u.Arg == 0 || u.Arg == 7) {
+				return true // inside another component's slot the visibility of that component's arguments is not stated: a must be passed explicitly and must not be read from the surrounding scope
 			}
 		}
 		order++
@@ -318,7 +323,7 @@ func c07Run(c *Ctx) {
 							if comp == 1 && k > 1 {
 								continue
 							}
-							if !do(c07Case{X: x, Uses: []c07Use{{comp, arg, sl, pl}}, Data: int(order % 2)}) {
+							if !do(c07Case{X: x, Uses: []c07Use{{comp, arg, sl, pl}}, Data: int(order % 3)}) {
 								return false
 							}
 						}
@@ -346,7 +351,7 @@ func c07Run(c *Ctx) {
 								if !c.Thorough() && pi >= 3 && (a1+s1+a2+s2)%3 != 0 {
 									continue
 								}
-								if !do(c07Case{X: x, Uses: []c07Use{{0, a1, s1, pp[0]}, {0, a2, s2, pp[1]}}, Data: (a1 + s2) % 2}) {
+								if !do(c07Case{X: x, Uses: []c07Use{{0, a1, s1, pp[0]}, {0, a2, s2, pp[1]}}, Data: (a1 + s2) % 3}) {
 									return false
 								}
 								// mixed with a use of Y in between, and a third use of X
